@@ -34,6 +34,16 @@ CHECKS = {
     technique="abstract-graph TLA+ specification (edges -> shortest paths -> components -> exact mGH) with containers as refinement mappings; TLC validates recorded calls under every container/labelling, collection calls and disconnected inputs; MGH.tla model-checked for the bounds themselves",
     text="Every connected labelled graph on <=4 vertices under 14 containers (lists, tuples, dense int/float/bool, CSR/CSC/LIL/sparse array; upper, lower, symmetric) plus random graphs, relabellings, collections (symmetric, zero diagonal, every entry a bracket) and disconnected graphs (warning + bracket for a largest component, raising is a violation) are validated by TLC against the abstract graph; identical labelling => identical lower bound across containers; dtype boundaries (diameter 126..131, thorough to 300) against a one-point space use the closed form diam/2 (PointLemma model-checked) with a distance-matrix certificate verified by TLC.",
     note="COO/DOK/DIA/BSR and non-contiguous views are refused by SciPy itself and excluded. Ties between largest components: any largest component is accepted."),
+ "C08": dict(
+    cat="model_checking", ref="DESIGN.md 5/C08",
+    technique="TLA+ state machine of PersLandscapeApprox.compute_landscape (snap, per-bar ramps, column sort, assemble) model-checked by TLC against the k-th-largest-tent definition for all bars with off-grid endpoints; recorded outputs of the approximate class, vectorize, the transformer and death_vector validated by TLC",
+    text="TLC checks HalfStep, ExactOnGrid, SnapWithinHalf and AssembleIsKth for every multiset of <=2..4 bars with arbitrary integer endpoints on grids of 3..7 nodes and steps 1..4. Seeded diagrams (off-grid endpoints, exact mid-point ties, up to 12 overlapping bars, several degrees, infinite bars, grids wider than the diagram, num_steps 2..60, 9 embeddings) are run through PersLandscapeApprox, vectorize(PersLandscapeExact), PersistenceLandscaper.fit_transform and death_vector; TLC decides the half-step bound, exactness on the grid, vectorize = true landscape, transformer = approximate values (flattened or not), death vector sorted with the right multiset.",
+    note="Grid covers the diagram (the property's domain). vectorize on inputs where the exact sweep's repeated-bar shortcut fires (C03 known finding) is counted as excluded, decided by the as-coded sweep model inside the validator."),
+ "C12": dict(
+    cat="model_checking", ref="DESIGN.md 5/C12",
+    technique="TLA+ contract machine for the imager geometry with the setters' arithmetic as coded (exact integers, half ticks) model-checked by TLC over all configuration histories; recorded histories on a real PersistenceImager (attributes, output shape, unit-box probes at pixel centres) validated event by event by TLC",
+    text="TLC checks SquarePixels, ResTimesPs, PixelSizeKept and Contains for every history of constructor / birth_range / pers_range / pixel_size / fit of length <=3 (thorough 4) over all ranges and pixel sizes within the constants, for the repaired constructor, and reproduces the pre-repair constructor defect at spec level. Seeded histories of up to 10 operations are replayed on a real imager under tick sizes 1, 1/4 (exact) and 0.1, 0.7, 1/3, 0.03 (inexact quotients); after every operation all six public attributes, the transform output shape and uniform-kernel probes (a unit box at a pixel centre must light exactly that pixel) are checked against the contract.",
+    note="Attributes are snapped to 1/q half ticks within 1e-9 relative before the integer contract is evaluated; padding placement is not prescribed. The genuine defects found (constructor truncation, int(n*ps/ps)) are repaired in /repo and recorded as fixed."),
 }
 
 NOT_APPLICABLE_REASON = "check under construction in this round; see DESIGN.md section 5"
